@@ -373,3 +373,120 @@ def run(rep: Report, prog: Program, tier: str) -> None:
                             construct="is_rtcp on RTP"))
     else:
         rep.ok("C04-DEMUX", "is_rtcp: no RTP packet with an allowed payload type is classified as RTCP", sample=f"{2 * len(sendable)} (marker, payload type) pairs")
+
+    pump_rule(rep, prog)
+
+
+def pump_rule(rep: Report, prog: Program) -> None:
+    """C04-PUMP: one turn of the receive pump (_recv_next and the two handlers it calls) evaluated with stubbed collaborators (transport, OpenSSL, libsrtp,
+    parsers, router) for every datagram class x transport state: what is handed to the data receiver / RTP receivers / RTCP recipients is exactly what the
+    property allows - nothing before `connected`, nothing that failed authentication or parsing, and every packet of a compound to every recipient once."""
+    from .objhook import make_hook
+    RULE = "C04-PUMP"
+    rep.rule(RULE, "the receive pump delivers exactly the authenticated, parsed packets - each to each recipient once - and application data only when connected", min_instances=10)
+    T_ = "rtcdtlstransport.RTCDtlsTransport"
+    recv = prog.func(T_ + "._recv_next")
+    world: Dict[str, Any] = {}
+
+    def extra(call: ast.Call, ev: Evaluator):
+        name = unparse(call.func)
+        if name == "self.transport._recv":
+            return world["datagram"]
+        if name.startswith("self._ssl."):
+            if name == "self._ssl.recv":
+                r = world["ssl_recv"]
+                if isinstance(r, str):
+                    raise Raised(r, call)
+                return r
+            return None
+        if name in ("self._write_ssl", "self.__log_debug", "self.__log_warning"):
+            return None
+        if name == "self._data_receiver._handle_data":
+            world["data"].append(ev.ev(call.args[0]))
+            return None
+        if name in ("self._rx_srtp.unprotect", "self._rx_srtp.unprotect_rtcp"):
+            if world["auth"] is False:
+                raise Raised("pylibsrtp.Error", call)
+            return (b"rtcp:" if name.endswith("rtcp") else b"rtp:") + ev.ev(call.args[0])
+        if name == "RtcpPacket.parse":
+            d = ev.ev(call.args[0])
+            if not d.startswith(b"rtcp:") or world["parse"] is False:
+                raise Raised("ValueError", call)
+            return list(world["rtcp_packets"])
+        if name == "RtpPacket.parse":
+            d = ev.ev(call.args[0])
+            if not d.startswith(b"rtp:") or world["parse"] is False:
+                raise Raised("ValueError", call)
+            return "RTP-PACKET"
+        if name == "self._rtp_router.route_rtcp":
+            return set(world["rtcp_routes"].get(ev.ev(call.args[0]), ()))
+        if name == "self._rtp_router.route_rtp":
+            return world["rtp_route"]
+        if name.endswith("._handle_rtcp_packet"):
+            world["rtcp"].append((ev.ev(call.func.value), ev.ev(call.args[0])))
+            return None
+        if name.endswith("._handle_rtp_packet"):
+            kw = {k.arg: ev.ev(k.value) for k in call.keywords}
+            world["rtp"].append((ev.ev(call.func.value), [ev.ev(a) for a in call.args], kw))
+            return None
+        if name in ("clock.current_ms", "current_ms"):
+            return 111
+        if name == "asyncio.wait_for":
+            return ev.ev(call.args[0])
+        return NotImplemented
+    oh = make_hook(prog, extra)
+    state_cls = prog.cls("rtcdtlstransport.State")
+    ST = {n: oh.enum_member(state_cls, n) for n in ("NEW", "CONNECTING", "CONNECTED", "CLOSED", "FAILED")}
+    rtp_dgram = bytes([0x80, 96]) + b"\x00" * 20
+    rtcp_dgram = bytes([0x80, 200]) + b"\x00" * 20
+    dtls_dgram = bytes([23]) + b"\x00" * 20
+    cases = [
+        # label, state, datagram, ssl_recv, keys?, auth ok, parse ok, expected (data, rtp count, rtcp deliveries, raises)
+        ("application data while connected", "CONNECTED", dtls_dgram, b"hello", True, True, True, dict(data=[b"hello"])),
+        ("application data before the identity check is over (connecting)", "CONNECTING", dtls_dgram, b"hello", True, True, True, dict()),
+        ("application data on a failed transport", "FAILED", dtls_dgram, b"hello", True, True, True, dict()),
+        ("DTLS record without application data", "CONNECTED", dtls_dgram, b"", True, True, True, dict()),
+        ("DTLS record that OpenSSL rejects", "CONNECTED", dtls_dgram, "SSL.Error", True, True, True, dict()),
+        ("DTLS close_notify", "CONNECTED", dtls_dgram, "SSL.ZeroReturnError", True, True, True, dict(raises="ConnectionError")),
+        ("SRTP packet, authenticated", "CONNECTED", rtp_dgram, b"", True, True, True, dict(rtp=1)),
+        ("SRTP packet failing authentication", "CONNECTED", rtp_dgram, b"", True, False, True, dict()),
+        ("SRTP packet that does not parse", "CONNECTED", rtp_dgram, b"", True, True, False, dict()),
+        ("SRTP packet before the keys exist", "CONNECTING", rtp_dgram, b"", False, True, True, dict()),
+        ("SRTCP compound of three packets", "CONNECTED", rtcp_dgram, b"", True, True, True, dict(rtcp=[("s1", "p1"), ("s1", "p3"), ("r1", "p3")])),
+        ("SRTCP compound failing authentication", "CONNECTED", rtcp_dgram, b"", True, False, True, dict()),
+        ("SRTCP compound that does not parse", "CONNECTED", rtcp_dgram, b"", True, True, False, dict()),
+        ("empty datagram", "CONNECTED", b"", b"", True, True, True, dict()),
+        ("STUN datagram", "CONNECTED", bytes([0, 1]) + b"\x00" * 18, b"", True, True, True, dict()),
+    ]
+    for label, state, dgram, ssl_recv, keys, auth, parse, want in cases:
+        world.update(datagram=dgram, ssl_recv=ssl_recv, auth=auth, parse=parse, data=[], rtp=[], rtcp=[], rtcp_packets=["p1", "p2", "p3"],
+                     rtcp_routes={"p1": ["s1"], "p2": [], "p3": ["s1", "r1"]}, rtp_route="receiver-1")
+        me = SimpleNamespace(__cls__=recv.cls, encrypted=True, _state=ST[state], _data_receiver=SimpleNamespace(), _rx_srtp=SimpleNamespace() if keys else None,
+                             _ssl=SimpleNamespace(), transport=SimpleNamespace(), _rtp_router=SimpleNamespace(), _rtp_header_extensions_map=SimpleNamespace())
+        setattr(me, "__rx_bytes", 0)
+        setattr(me, "__rx_packets", 0)
+        raised = None
+        try:
+            oh.run_method(recv, me, [], {})
+        except Raised as ex:
+            raised = ex.name
+        except Unknown as ex:
+            raise AnalysisError(f"{RULE} cannot evaluate [{label}]: {ex}")
+        problems = []
+        if raised != want.get("raises"):
+            problems.append(f"raises {raised}, expected {want.get('raises')}")
+        if world["data"] != want.get("data", []):
+            problems.append(f"application data handed over: {world['data']}, expected {want.get('data', [])}")
+        if want.get("rtp"):
+            ok_rtp = len(world["rtp"]) == 1 and world["rtp"][0][0] == "receiver-1" and "RTP-PACKET" in (world["rtp"][0][1] + list(world["rtp"][0][2].values())) \
+                and 111 in (world["rtp"][0][1] + list(world["rtp"][0][2].values()))
+            if not ok_rtp:
+                problems.append(f"RTP deliveries {world['rtp']}, expected one to receiver-1 with the parsed packet and the arrival time")
+        elif world["rtp"]:
+            problems.append(f"an RTP packet was delivered: {world['rtp']}")
+        if sorted(world["rtcp"]) != sorted(want.get("rtcp", [])):
+            problems.append(f"RTCP deliveries {sorted(world['rtcp'])}, expected {sorted(want.get('rtcp', []))}")
+        if problems:
+            rep.fail(mk_finding(prog, PROP, RULE, recv, recv.node, f"[{label}] " + "; ".join(problems), construct=f"pump: {label}"))
+        else:
+            rep.ok(RULE, label, sample=str(want) if want else "nothing delivered")
